@@ -208,7 +208,9 @@ class _StructStub:
             assert n == len(data), "struct stub: length mismatch"
             assert 0 <= cla <= 255 and 0 <= cmd <= 255
             return mkbytes([int(cla), int(cmd)] + blist(data))
-        raise AssertionError("struct stub: unsupported format %r" % (fmt,))
+        # any other format: the real struct on the (realised) arguments
+        import struct as real_struct
+        return real_struct.pack(fmt, *[bytes(list(a)) if isinstance(a, HB) else _realize(a) for a in args])
 
 
 def _hex_stub(x):
